@@ -174,7 +174,9 @@ def judge(case, results):
             v.count("inconclusive_no_quiescence")
             continue
         want = sorted(c for f, (k, c) in meta["final"].items() if k in VALID and not f.startswith("."))
-        got = sorted(set(active_ids(out["final_ticks"][-1])))
+        # one run() per valid file and tick; two files may hold the very same bytes (a rename followed by a rewrite of the old
+        # name with its earlier content), so this is a multiset comparison
+        got = sorted(active_ids(out["final_ticks"][-1]))
         if got != want:
             stale = [g for g in got if g not in want]
             missing = [w for w in want if w not in got]
